@@ -52,13 +52,9 @@ class HmacRules:
         if len(self.cmp) != 1:
             raise AnalysisBroken('expected one boolean tag-compare method calling the core, found %d' % len(self.cmp))
         self.cmp = self.cmp[0]
-        self.hashers = {}
-        for f in prog.functions.values():
-            if f['name'] in ('gethlen', 'getblen') and f.get('rec'):
-                I = interp.Interp(prog, models=dict(models.STD_MODELS))
-                r = I.run(f, interp.State(), this=P(('ext', 'h'), ()))
-                if len(r) == 1 and r[0][1][0] == 'c':
-                    self.hashers.setdefault(f['rec'], {})[f['name']] = r[0][1][1]
+        from wai.facts import const_getters
+        hb = next((r['q'] for r in prog.records.values() if any(m['n'] == 'gethlen' for m in r['methods']) and not prog.all_bases(r['q'])), None)
+        self.hashers = const_getters(prog, hb, ('gethlen', 'getblen')) if hb else {}
         self.ipad = prog.globals.get(self.Hq + '::ipad', {}).get('value')
         self.opad = prog.globals.get(self.Hq + '::opad', {}).get('value')
 
